@@ -244,7 +244,11 @@ def classify_exception(e):
   line = (last.line or "").strip() if last else ""
   in_pkg = "/precondition/" in fname and "/verif/" not in fname
   if isinstance(e, AssertionError):
-    return "explicit" if (in_pkg and str(e).strip()) else "internal"
+    # explanatory = a sentence; a bare assert or one that only carries a
+    # debug payload (tuple of shapes ...) is an internal error
+    msg = e.args[0] if e.args else None
+    ok = isinstance(msg, str) and " " in msg.strip()
+    return "explicit" if (in_pkg and ok) else "internal"
   if isinstance(e, (ValueError, NotImplementedError, TypeError)):
     if in_pkg and line.startswith("raise"):
       return "explicit"
